@@ -30,6 +30,13 @@ Theorem C14_page_type_match (sel : selector) (pt : page_type) :
 Proof. exact (page_type_match_iff sel pt). Qed.
 Print Assumptions C14_page_type_match.
 
+(* the decidable rendition with which the judges of harness/p_c14.py decide implementation answers (bounded
+   search for n, never the code's test) is exactly that specification *)
+Theorem C14_match_spec_decided (sel : selector) (pt : page_type) :
+  match_spec_b sel pt = true <-> match_spec sel pt.
+Proof. exact (match_spec_b_correct sel pt). Qed.
+Print Assumptions C14_match_spec_decided.
+
 (* parse_page_selectors: specificity = (named page [+ named :nth groups], :first/:blank/:nth, :left/:right) *)
 Theorem C14_selector_specificity (name : option string) (ps : list pseudo) sel sp :
   parse_selector name ps = Some (sel, sp) ->
